@@ -66,6 +66,12 @@ func hasContinueStmt(obj object.Object) bool {
 }
 
 func hasControlStmt(obj object.Object, controlType object.ObjectType) bool {
+	// a reserve stands for the content of its insert, a directive in
+	// that content acts on the loop of the layout around the reserve
+	if reserve, isReserve := obj.(*object.Reserve); isReserve && reserve.Content != nil {
+		return hasControlStmt(reserve.Content, controlType)
+	}
+
 	block, isBlock := obj.(*object.Block)
 
 	if !isBlock {
